@@ -1,20 +1,66 @@
 #!/usr/bin/env python3
-"""Markdown table of the seeded defects and which checks report them (from seeded/*/meta.json, detection.json)."""
-import json, os, glob
+"""Markdown table of the seeded defects and which checks report them (from seeded/*/meta.json, detection.json).
+Writes seeded/TABLE.md and refreshes the copy between the seeded-table markers of DESIGN.md."""
+import json, os, glob, re
 V = os.path.dirname(os.path.dirname(os.path.abspath(__file__)))
-rows = []
+STRENGTH = {
+    'C01_m2': 'per-axis tuple widths / params added to the Interpolate/Gridding leaf generator',
+    'C02_m1': 'Add cases whose FIRST term returns a view (Transpose/Reshape/Slice first) added to the tree generator',
+    'C02_m2': 'inputs stored in a real dtype (also exposed F20/F21)',
+    'C03_m1': 'malformed stream: operand pairs whose output shapes are rank-prefixes of each other',
+    'C03_m2': 'real-dtype inputs under complex scalar multiples; A(x) compared with the matrix expression applied to x in the stored dtype',
+    'C04_m1': 'dedicated block-normal stream with leading batch axes divisible by the block size',
+    'C04_m2': 'NUFFT(toeplitz=True) stream on non-square grids',
+    'C05_m3': 'the empty subset of axes added to the systematic axes sweep',
+    'C06_m2': 'first run: only the fail-closed translator fired (no concrete input); accuracy stream widened to odd / fractional widths 3-6 so the adjoint dot test exhibits an input',
+    'C11_m3': 'every prox / thresh case re-run on the same values in F, transposed-view, strided and reversed layouts',
+    'C12_m1': 'pass-through preconditioners (Identity linop, lambda r: r)',
+    'C12_m3': 'mixed-precision stream (x0 float32/complex64 with a double system) + caller-array snapshots after every update',
+    'C12_m4': 'first run: one-step correspondence only (no concrete input); data scaled by 1e-12..1e8 so the Krylov-optimality oracle exhibits one',
+    'C13_m3': 'gradf that returns its argument / a view / an incrementally maintained caller-owned buffer',
+    'C14_m4': 'first run: configured-data correspondence only (no concrete input); dominant-l2 stream (lamda >> ||A||^2, default steps) so the optimum oracle exhibits one',
+    'C15_m2': 'PowerMethod on genuinely 2-D operands',
+    'C16_m2': 'non-binary weights + byte snapshots of the caller arrays of SenseRecon',
+    'C16_m3': 'L1WaveletRecon with ADMM and rho != 1 compared with an independent minimiser',
+    'C16_m4': 'non-Cartesian SenseRecon with some samples exactly zero',
+}
+rows, total, own_conc = [], 0, 0
 for d in sorted(glob.glob(os.path.join(V, "seeded", "*"))):
-    name = os.path.basename(d)
+    if not os.path.isdir(d):
+        continue
+    n = os.path.basename(d)
     meta = json.load(open(os.path.join(d, "meta.json")))
     det = json.load(open(os.path.join(d, "detection.json"))) if os.path.exists(os.path.join(d, "detection.json")) else {}
-    caught = []
+    c = []
+    total += 1
     for pid, r in sorted(det.items()):
-        if isinstance(r, dict) and r.get("rc") == 1:
-            w = (r.get("what") or [""])[0]
-            caught.append("%s: %s" % (pid, w[:110]))
-        elif isinstance(r, dict):
-            caught.append("%s: NOT reported" % pid)
-    rows.append("| %s | %s | %s | %s |" % (name, meta.get("summary", "")[:150].replace("|", "/"), meta.get("needs", "")[:150].replace("|", "/"),
-                                          "<br>".join(caught) or "(not run yet)"))
-print("| seeded change | what was changed | needs | reported by |\n|---|---|---|---|")
-print("\n".join(rows))
+        if not isinstance(r, dict):
+            continue
+        if r.get("rc") == 1:
+            conc = [l for l in r.get("violations", []) if "no-failing-input-found" not in l]
+            ws = r.get("what") or [""]
+            # first violation that carries a concrete input, if any
+            w = ws[0]
+            for l, ww in zip(r.get("violations", []), ws):
+                if "no-failing-input-found" not in l:
+                    w = ww
+                    break
+            w = re.sub(r"^C\d\d: ", "", w)[:90].replace("|", "/")
+            c.append("%s%s: %s" % (pid, "" if conc else " (no input)", w))
+            if pid == n[:3] and conc:
+                own_conc += 1
+        else:
+            c.append("%s: missed" % pid)
+    s = meta.get("summary", "").replace("|", "/")
+    s = s[:170] + ("…" if len(s) > 170 else "")
+    rows.append("| %s | %s | %s | %s |" % (n, s, "<br>".join(c) or "(not run)", STRENGTH.get(n, "—")))
+table = ("| seeded change | what was changed | reported by (first violation with an input) | strengthening that was needed |\n|---|---|---|---|\n"
+         + "\n".join(rows) + "\n")
+open(os.path.join(V, "seeded", "TABLE.md"), "w").write(table)
+p = os.path.join(V, "DESIGN.md")
+s = open(p).read()
+b, e = "<!-- seeded-table-begin -->\n", "<!-- seeded-table-end -->\n"
+if b in s and e in s:
+    s = s[:s.index(b) + len(b)] + table + s[s.index(e):]
+    open(p, "w").write(s)
+print("%d seeded changes, %d reported by their own property's check with a concrete input, %d needed strengthening" % (total, own_conc, len(STRENGTH)))
